@@ -96,6 +96,7 @@ type Kernel struct {
 	nGen    int
 
 	// free-running mode: requests are served on the caller's goroutine under amu
+	bootFault string // start-up simulation (C20): which start-up request fails
 	auto    bool
 	autoLat time.Duration
 	amu     sync.Mutex
@@ -455,7 +456,17 @@ func (k *Kernel) handle(r *NLReq) {
 	switch r.Op {
 	case "rt":
 		// link create / up / remove / route add: acknowledged
+		if k.bootFault == "link" && r.Flags&0x400 != 0 {
+			k.bootFault = ""
+			s.fired("boot.link-error", 1)
+			errno = int(syscall.EEXIST) // the device already exists / cannot be created
+		}
 	case "family":
+		if k.bootFault == "family" {
+			s.fired("boot.family-error", 1)
+			errno = int(syscall.ENOENT) // module not loaded
+			break
+		}
 		name := ""
 		if a, ok := findAttr(r.Attrs, ctrlAttrFamilyName); ok {
 			name = cstr(a.Data)
@@ -473,6 +484,11 @@ func (k *Kernel) handle(r *NLReq) {
 			aNest(ctrlAttrMcastGroups, aNest(1, aU32(ctrlAttrMcastID, gtp5gMcastGrp), aStr(ctrlAttrMcastName, "gtp5g"))),
 		})))
 	case "version":
+		if k.bootFault == "version" {
+			s.fired("boot.version-error", 1)
+			errno = int(syscall.EOPNOTSUPP)
+			break
+		}
 		data = append(data, nlmsg(gtp5gFamilyID, 0, r.Seq, pid, genlBody(cmdGetVersion, 0, []Attr{aStr(1, k.version)})))
 	case "add-create", "add-update", "del", "get", "report", "multi":
 		f := k.matchFault(r)
